@@ -33,6 +33,8 @@ func runC17(c *Check, tier string) {
 	ruleC17FieldAgreement(c, m)
 	ruleC17Separators(c, m)
 	ruleC17RelativeResolution(c, m)
+	// the selector asks the matcher: an index of its own would re-implement (part of) the algebra
+	rulePatternsDecidedByMatcher(c, "R17j")
 }
 
 type c17Info struct {
